@@ -181,6 +181,108 @@ fn multinomial(p: &Params) {
     let _ = b;
 }
 
+
+// ---- Tweedie GLM: configurations are solver-chosen, data concrete -------------------------------
+fn unit_deviance(p: f64, y: f64, mu: f64) -> f64 {
+    if p == 0.0 {
+        (y - mu) * (y - mu)
+    } else if p == 1.0 {
+        2.0 * ((if y > 0.0 { y * (y / mu).ln() } else { 0.0 }) - y + mu)
+    } else if p == 2.0 {
+        2.0 * ((mu / y).ln() + y / mu - 1.0)
+    } else {
+        2.0 * (y.max(0.0).powf(2.0 - p) / ((1.0 - p) * (2.0 - p)) - y * mu.powf(1.0 - p) / (1.0 - p) + mu.powf(2.0 - p) / (2.0 - p))
+    }
+}
+fn inv_link(link: usize, z: f64) -> f64 {
+    match link {
+        0 => z,
+        1 => z.exp(),
+        _ => sigmoid(z),
+    }
+}
+fn tweedie(p: &Params) {
+    use linfa_linear::{Link, TweedieRegressor};
+    let powers = [0.0, 1.0, 1.5, 2.0, 3.0];
+    let pw = powers[choice("power", 5)];
+    let link = choice("link", 3); // 0 identity, 1 log, 2 logit
+    let icpt = choice("intercept", 2) == 1;
+    let alpha = [0.0, 0.5][choice("alpha", 2)];
+    let data = choice("data", 3);
+    let n = p.u("n", 6);
+    // features (1-2 columns) and a positive target in (0,1) so that every link's range contains it
+    let a: [[f64; 2]; 7] = [[-1.5, 0.5], [-0.5, -1.0], [0.25, 2.0], [1.0, 0.0], [2.0, -0.5], [-2.0, 1.5], [0.75, 0.75]];
+    let yv: [f64; 7] = [0.2, 0.35, 0.5, 0.6, 0.8, 0.15, 0.55];
+    let x = match data {
+        0 => Array2::from_shape_fn((n, 1), |(i, _)| a[i % 7][0]),
+        1 => Array2::from_shape_fn((n, 2), |(i, j)| a[i % 7][j]),
+        _ => Array2::from_shape_fn((n, 1), |(i, _)| 3.0 + 0.5 * a[i % 7][0]),
+    };
+    let scale_y = if link == 2 { 1.0 } else { 4.0 };
+    let y = Array1::from_shape_fn(n, |i| scale_y * yv[i % 7]);
+    // claimed combinations: identity link only for the normal distribution (mu may leave the support
+    // otherwise), logit only for the normal distribution with targets in (0,1); log link for every power
+    assume_bool(link == 1 || pw == 0.0);
+    let ds = Dataset::new(x.clone(), y.clone());
+    let mk = || TweedieRegressor::params().power(pw).alpha(alpha).fit_intercept(icpt).max_iter(20000).tol(1e-7).link(match link { 0 => Link::Identity, 1 => Link::Log, _ => Link::Logit });
+    // support: a target outside the distribution's support is rejected before optimising
+    if pw >= 1.0 {
+        let mut ybad = y.clone();
+        ybad[0] = if pw >= 2.0 { 0.0 } else { -1.0 };
+        check_bool("tweedie.target outside the support is rejected with an error", mk().fit(&Dataset::new(x.clone(), ybad)).is_err());
+        if pw < 2.0 {
+            let mut yzero = y.clone();
+            yzero[0] = 0.0;
+            check_bool("tweedie.zero target is inside the support for 1 <= power < 2", mk().fit(&Dataset::new(x.clone(), yzero)).is_ok());
+        }
+    }
+    let m = match mk().fit(&ds) {
+        Ok(m) => m,
+        Err(e) => {
+            note(&format!("tweedie fit error: {}", e));
+            return;
+        }
+    };
+    let pred = m.predict(&x);
+    for v in pred.iter() {
+        let ok = match link {
+            0 => v.is_finite(),
+            1 => *v > 0.0 && v.is_finite(),
+            _ => *v > 0.0 && *v < 1.0,
+        };
+        check_bool("tweedie.prediction lies in the range of the link", ok);
+    }
+    // stationarity of 1/2 (deviance + alpha |w|^2) by central differences of the textbook deviance
+    let d = x.ncols();
+    let obj = |w: &[f64], b: f64| -> f64 {
+        let mut dev = 0.0;
+        for i in 0..n {
+            let z: f64 = (0..d).map(|j| x[(i, j)] * w[j]).sum::<f64>() + b;
+            dev += unit_deviance(pw, y[i], inv_link(link, z));
+        }
+        0.5 * (dev + alpha * w.iter().map(|v| v * v).sum::<f64>())
+    };
+    let w0: Vec<f64> = m.coef.to_vec();
+    let b0 = m.intercept;
+    let h = 1e-6;
+    let mut gmax = 0.0f64;
+    for j in 0..d {
+        let (mut wp, mut wm) = (w0.clone(), w0.clone());
+        wp[j] += h;
+        wm[j] -= h;
+        gmax = gmax.max(((obj(&wp, b0) - obj(&wm, b0)) / (2.0 * h)).abs());
+    }
+    if icpt {
+        gmax = gmax.max(((obj(&w0, b0 + h) - obj(&w0, b0 - h)) / (2.0 * h)).abs());
+    } else {
+        check_bool("tweedie.no intercept is fitted when disabled", b0 == 0.0);
+    }
+    if gmax > 1e-3 {
+        note(&format!("tweedie: |grad|_inf = {:e} power {} link {} icpt {} alpha {} data {} w {:?} b {}", gmax, pw, link, icpt, alpha, data, w0, b0));
+    }
+    check_bool("tweedie.gradient of 1/2 (deviance + alpha |w|^2) vanishes (<= 1e-3)", gmax <= 1e-3);
+}
+
 pub fn register(v: &mut Vec<HarnessDef>) {
     harness_sym!(v, "c12.binary", "C12", binary,
         "binary logistic regression on every label vector over a 3-letter alphabet: error iff not two classes, class set, probabilities, decision rule, stationarity of the documented objective recomputed from first principles",
@@ -190,4 +292,8 @@ pub fn register(v: &mut Vec<HarnessDef>) {
         "multinomial logistic regression on every label vector: sorted class set, rows of probabilities sum to one, arg-max decision, stationarity for alpha > 0",
         ["linfa_logistic::ValidMultiLogisticRegression::fit", "label_classes_multi", "multi_logistic_loss / multi_logistic_grad", "MultiFittedLogisticRegression::{classes, params, intercept, predict_probabilities, predict_inplace}", "softmax_inplace", "log_sum_exp"],
         ["features concrete; labels symbolic", "stationarity only for alpha > 0 (alpha = 0 needs non-separable data in every one-vs-rest sense)"]);
+    harness_sym!(v, "c12.tweedie", "C12", tweedie,
+        "Tweedie GLM over solver-enumerated configurations (power, link, intercept, alpha, data family) on concrete data: support errors, predictions in the link's range, stationarity by central differences of the textbook deviance",
+        ["linfa_linear::TweedieRegressorValidParams::fit", "TweedieProblem::{cost, gradient}", "TweedieDistribution::{in_range, deviance, deviance_derivative}", "Link::{link, inverse, inverse_derviative}", "TweedieRegressor::predict_inplace"],
+        ["data concrete (three feature families, targets in the support of every power)", "identity and logit links only with power 0; log link with every power", "iteration budget 20000, tol 1e-7; stationarity tolerance 1e-3"]);
 }
